@@ -16,7 +16,7 @@ void vlogger(enum log_level level, char *file, unsigned line, const char *fmt, .
 	(void)level, (void)file, (void)line, (void)fmt;
 }
 
-#define MAXL 80000
+#define MAXL (1u << 21)
 static int init_rank[MAXL], init_thr[MAXL], init_cnt[MAXL], fini_cnt[MAXL], fini_rank[MAXL], fini_thr[MAXL];
 static uint64_t curL;
 static unsigned curT;
@@ -169,6 +169,15 @@ int main(int argc, char **argv)
 			for(int R = 1; R <= maxR; ++R)
 				check_triple(bigL[i], R, 1, 0);
 		sx_sample("rank-level only (LPs=65537, ranks=1..%d): lp_global_init + lid_to_nid of every LP", maxR);
+		/* thread level on large ranks: 16- and 32-bit boundaries of the routing arithmetic, primes, non-divisible counts */
+		static const uint64_t hugeL[] = {65535, 65536, 65537, 92819, 99991, 120000, 131071, 131072, 131073, 200000, 250000, 262143, 262144,
+		    262145, 524287, 524289, 1000003, 1048575, 1048576, 1048577, 1299709, 2000003};
+		static const unsigned hugeT[] = {1, 2, 3, 4, 5, 6, 7, 8, 12, 16, 17};
+		for(unsigned i = 0; i < sizeof hugeL / sizeof *hugeL; ++i)
+			for(unsigned j = 0; j < sizeof hugeT / sizeof *hugeT; ++j)
+				for(int R = 1; R <= 2; ++R)
+					check_triple(hugeL[i], R, hugeT[j], 1);
+		sx_sample("full triple on large ranks (LPs=1048577, ranks=2, threads=17): routing of every LP");
 	}
 	char extra[200];
 	snprintf(extra, sizeof extra, "\"max_lps\": %llu, \"max_ranks\": %d, \"max_threads\": %u, \"big\": %d", (unsigned long long)maxL,
